@@ -584,6 +584,13 @@ func genC16(tier string, r *Rng, emit func(Case)) {
 			}
 		}
 	}
+	// legal calls made from several goroutines at once do not panic either (print and format cases in parallel)
+	np := 30
+	if tier == "thorough" {
+		np = 300
+	}
+	genPar(r, emit, "C10", 40, np)
+	genPar(r, emit, "C08", 100, np)
 }
 
 func sortStrings(s []string) {
@@ -595,5 +602,5 @@ func sortStrings(s []string) {
 }
 
 func init() {
-	register("C16", genC16, map[string]runner{"Api": runApi})
+	register("C16", genC16, map[string]runner{"Api": runApi, "Par": runPar})
 }
